@@ -63,7 +63,7 @@ Proof. lia. Qed.
 Print Assumptions C15_scratch_registers_are_temporaries.
 
 (* the constants of the model's encoder are those of the current Rust source (gen/SrcConsts.v is regenerated from it on every run) *)
-From Inj Require Import SrcTie.
+From Inj Require Import SrcTieArm64.
 From Inj.gen Require Import SrcConsts.
 Theorem C15_source_constants : NOP = ARM64_NOP /\ HI_FIXED = ARM64_BRANCH_HI /\ 0x2000000 = ARM64_BRANCH_LO_NEG /\
   0x14000000 = ARM64_B_OPCODE /\ 0x4000000 = ARM64_B_MASK + 1 /\
